@@ -21,6 +21,10 @@ func Parse(tmpl string) (Compiler, error) {
 	if !strings.HasPrefix(tmpl, "/") {
 		return template{}, InvalidTemplateError{tmpl: tmpl, msg: "no leading /"}
 	}
+	if strings.Contains(tmpl, eof) {
+		// eof is the in-band end-of-input token of the parser: a NUL in the template would end it early
+		return template{}, InvalidTemplateError{tmpl: tmpl, msg: "NUL character in template"}
+	}
 	tokens, verb := tokenize(tmpl[1:])
 
 	p := parser{tokens: tokens, exactSlash: true}
